@@ -486,6 +486,8 @@ func variadic(a Val) []Val {
 func init() {
 	nop := func(m *Machine, fr *frame, fn *ssa.Function, a []Val) Val { return nil }
 	// sync
+	// plain sync mutexes (FieldMap.rwLock, store mutexes): exclusion without scheduling points; the session's
+	// sendMutex/resendMutex are verifMutex types (threads.go) whose operations are scheduling points
 	for _, n := range []string{"(*sync.Mutex).Lock", "(*sync.RWMutex).Lock", "(*sync.RWMutex).RLock"} {
 		rd := strings.HasSuffix(n, "RLock")
 		stubs[n] = func(m *Machine, fr *frame, fn *ssa.Function, a []Val) Val {
@@ -493,16 +495,15 @@ func init() {
 			if p == nil {
 				m.rtPanic(fr, "nil pointer dereference (mutex)")
 			}
+			ls := m.lockOf(p)
+			if !ls.canLock(rd) {
+				panic(&pathEnd{kind: "deadlock", msg: "lock of a sync mutex that is held at " + m.posStr(fr)})
+			}
 			if rd {
-				if m.locks[p] < 0 {
-					panic(&pathEnd{kind: "deadlock", msg: "RLock while write-locked by the same logical thread at " + m.posStr(fr)})
-				}
-				m.locks[p]++
+				ls.readers[m.cur]++
+				ls.nread++
 			} else {
-				if m.locks[p] != 0 {
-					panic(&pathEnd{kind: "deadlock", msg: "Lock of a mutex already held at " + m.posStr(fr)})
-				}
-				m.locks[p] = -1
+				ls.wHeld, ls.writer = true, m.cur
 			}
 			return nil
 		}
@@ -511,16 +512,18 @@ func init() {
 		rd := strings.HasSuffix(n, "RUnlock")
 		stubs[n] = func(m *Machine, fr *frame, fn *ssa.Function, a []Val) Val {
 			p := a[0].(*Val)
+			ls := m.lockOf(p)
 			if rd {
-				if m.locks[p] <= 0 {
+				if ls.nread == 0 {
 					panic(&goPanic{msg: "sync: RUnlock of unlocked RWMutex", pos: m.posStr(fr)})
 				}
-				m.locks[p]--
+				ls.readers[m.cur]--
+				ls.nread--
 			} else {
-				if m.locks[p] != -1 {
+				if !ls.wHeld {
 					panic(&goPanic{msg: "sync: unlock of unlocked mutex", pos: m.posStr(fr)})
 				}
-				m.locks[p] = 0
+				ls.wHeld, ls.writer = false, nil
 			}
 			return nil
 		}
